@@ -156,3 +156,39 @@ func TestC02Sim(t *testing.T) {
 		},
 	})
 }
+
+func TestC04SimRestart(t *testing.T) {
+	runSimCheck(t, simCheck{
+		Property: "C04", Name: "C04SimRestart",
+		Rule:   "as C04Sim, plus config reloads (new dispatcher and inhibitor, same notification log) and process restarts (clean shutdown snapshot, stale maintenance snapshot, or no snapshot). Non-trivial: the run contains a reload or restart followed by >=1 delivery, and >=1 deduplicated flush.",
+		Params: sim.GenParams{Silences: true, Faults: true, LongTail: true, MaxSteps: 14, Reload: true, Restart: true},
+		NonTrivial: func(st sim.Stats, sc *sim.Scenario, tr *sim.Trace) bool {
+			for i, s := range sc.Steps {
+				if (s.Op == "reload" || s.Op == "restart") && i < len(tr.StepAt) {
+					for _, a := range tr.Attempts {
+						if a.OK() && a.T.After(tr.StepAt[i]) {
+							return st.DedupedFlushes > 0
+						}
+					}
+				}
+			}
+			return false
+		},
+	})
+}
+
+func TestC01SimRestart(t *testing.T) {
+	runSimCheck(t, simCheck{
+		Property: "C01", Name: "C01SimRestart",
+		Rule:   "as C01Sim, plus config reloads and process restarts (posts before the dispatcher start delay has passed are picked up by the new dispatcher's initial load). Non-trivial: >=1 knowledge obligation evaluated after a reload or restart.",
+		Params: sim.GenParams{Silences: true, Inhibit: true, Faults: true, Reload: true, Restart: true, Gets: true},
+		NonTrivial: func(st sim.Stats, sc *sim.Scenario, tr *sim.Trace) bool {
+			for _, s := range sc.Steps {
+				if s.Op == "reload" || s.Op == "restart" {
+					return st.KnowledgeObligations > 0
+				}
+			}
+			return false
+		},
+	})
+}
